@@ -4,7 +4,6 @@ import (
 	"context"
 	"database/sql"
 	"database/sql/driver"
-	"errors"
 	"fmt"
 	"io"
 	"strings"
@@ -32,8 +31,10 @@ type SQLHooks struct {
 	After  func(ev *SQLEvent, err error)
 }
 
-// ErrInjected is the error injected statement faults return.
-var ErrInjected = errors.New("simsql: injected statement failure")
+// ErrInjected is the error injected statement faults return: what the real
+// driver returns when SQLite runs out of memory inside a statement (the
+// statement fails, the transaction stays open).
+var ErrInjected error = sqlite3.Error{Code: sqlite3.ErrNomem}
 
 type connector struct {
 	dsn        string
